@@ -409,6 +409,7 @@ def run(prog: Program, L: Ledger) -> None:
     # ------------------------------------------------ drivers' context settings
     _check_context_settings(prog, L, subj)
     _check_driver_from_dict_copies(prog, L, subj)
+    _check_from_dict_values_untouched(prog, L)
 
 
 def _context_slot(getter: FuncInfo) -> str | None:
@@ -677,3 +678,61 @@ def _check_driver_from_dict_copies(prog: Program, L: Ledger, subj) -> None:
                 f"{fd.qualname} reads its argument through `{norm(first_read)[:80] if first_read is not None else ''}` without a deep copy: the Atoms object and the context values of the rebuilt simulation ARE the objects inside the dictionary",
                 f"data = read_json(f); a = Sim.from_dict(data); a.run(n); b = Sim.from_dict(data): b.atoms is a.atoms, b starts from a's evolved positions with the file's step counter; data['atoms'] itself has changed", dp)
     L.floor("driver from_dict implementations checked for ownership of their state", n, 1)
+
+
+def _check_from_dict_values_untouched(prog: Program, L: Ledger) -> None:
+    """S8: rebuilding hands the stored values to the constructor AS STORED.  Inside a from_dict the only entries of the
+    keyword dictionary that may be replaced are nested component dictionaries, by the objects rebuilt from them
+    (`X.from_dict(...)`, a list of such, or a local that holds one); an entry recomputed from itself (`max(v, 1)`, a clamp, a
+    cast, a default substituted for a falsy value) makes the rebuilt object differ from the serialised one for the values the
+    recomputation changes."""
+    from ..normalize import flat
+
+    L.rule("S8", "from_dict passes stored keyword values on unchanged: an entry of the keyword dictionary is only ever replaced by the component rebuilt from it")
+    seen = set()
+    n = 0
+    for ci in prog.classes.values():
+        fd = ci.methods.get("from_dict")
+        if fd is None or fd.qualname in seen:
+            continue
+        seen.add(fd.qualname)
+        f = flat(prog, fd, ci)
+        params = [a.arg for a in fd.node.args.args]
+        if len(params) < 2:
+            continue
+        dp = params[1]
+        # dictionaries derived from the argument
+        derived = {dp}
+        for _r in range(4):
+            for st in walk_no_nested(f.node):
+                if isinstance(st, (ast.Assign, ast.AnnAssign)) and st.value is not None:
+                    for t in (st.targets if isinstance(st, ast.Assign) else [st.target]):
+                        if isinstance(t, ast.Name) and any(isinstance(x, ast.Name) and x.id in derived for x in ast.walk(st.value)) \
+                                and not any(isinstance(c, ast.Call) and isinstance(c.func, ast.Attribute) and c.func.attr == "from_dict" for c in ast.walk(st.value)):
+                            v = st.value
+                            is_dictish = isinstance(v, ast.Subscript) or (isinstance(v, ast.Call) and (norm(v.func) in ("deepcopy", "copy.deepcopy", "dict", "copy", "copy.copy") or (isinstance(v.func, ast.Attribute) and v.func.attr in ("get", "copy", "pop")))) \
+                                or isinstance(v, ast.Name) or (isinstance(v, ast.BinOp) and isinstance(v.op, ast.BitOr))
+                            if is_dictish:
+                                derived.add(t.id)
+        rebuilt_locals = {t.id for st in walk_no_nested(f.node) if isinstance(st, (ast.Assign, ast.AnnAssign)) and st.value is not None
+                          for t in (st.targets if isinstance(st, ast.Assign) else [st.target]) if isinstance(t, ast.Name)
+                          and any(isinstance(c, ast.Call) and isinstance(c.func, ast.Attribute) and c.func.attr == "from_dict" for c in ast.walk(st.value))}
+        # lists that collect rebuilt components
+        for st in walk_no_nested(f.node):
+            if isinstance(st, ast.Expr) and isinstance(st.value, ast.Call) and isinstance(st.value.func, ast.Attribute) and st.value.func.attr == "append" and isinstance(st.value.func.value, ast.Name) \
+                    and st.value.args and (any(isinstance(c, ast.Call) and isinstance(c.func, ast.Attribute) and c.func.attr == "from_dict" for c in ast.walk(st.value.args[0]))
+                                           or (isinstance(st.value.args[0], ast.Name) and st.value.args[0].id in rebuilt_locals)):
+                rebuilt_locals.add(st.value.func.value.id)
+        for st in walk_no_nested(f.node):
+            if not isinstance(st, (ast.Assign, ast.AugAssign)):
+                continue
+            for t in (st.targets if isinstance(st, ast.Assign) else [st.target]):
+                if isinstance(t, ast.Subscript) and isinstance(t.value, ast.Name) and t.value.id in derived and isinstance(t.slice, ast.Constant):
+                    n += 1
+                    v = st.value
+                    ok = isinstance(st, ast.Assign) and (any(isinstance(c, ast.Call) and isinstance(c.func, ast.Attribute) and c.func.attr == "from_dict" for c in ast.walk(v))
+                                                        or (isinstance(v, ast.Name) and v.id in rebuilt_locals))
+                    L.check(ok, "S8", f"{fd.qualname}:kwargs[{t.slice.value!r}]", f"{fd.module.relpath}:{st.lineno}",
+                            f"`{norm(st)[:90]}` recomputes the stored entry {t.slice.value!r} before it reaches the constructor: the rebuilt object does not have the serialised value whenever the recomputation changes it",
+                            f"serialise an object whose `{t.slice.value}` is changed by `{norm(v)[:50]}` (a boundary value: 0, a negative number, an empty container …), rebuild it: different value; serialising again gives a different dictionary", norm(st)[:100])
+    L.floor("stores into the keyword dictionary inside from_dict implementations", n, 2)
